@@ -5,7 +5,7 @@ _parse_cache / _compiled_cache / node._compiled caches, __setitem__/__delitem__,
 join, take/drop/at-index (NumPy views), reverse, dictionary literals (copy_lambda), define, function definition and call.
 Oracle: differential - the same statement in a FRESH interpreter loaded with a copy of the pre-state.
 """
-from vt.world import enter, verdict, cfg, CFG, pick, cut
+from vt.world import enter, verdict, cfg, CFG, pick, cut, untraced
 from vt import npworld as W
 from klongpy.core import KGSym, KGFn, KLONG_UNDEFINED
 import klongpy.interpreter as I
@@ -73,8 +73,12 @@ STMTS = [
     (".module(:mm)", []),
     (".module(0)", []),
     ("u::p", ["u"]),
+    # a function whose LOCAL f shadows the global function f while it runs (k is defined in the session prelude); called for its
+    # value only - no assignment follows the call - and the global f is applied afterwards
+    ("k(p)", []),
+    ("f(p)", []),
 ]
-NAMES = ["a", "b", "c", "d", "e", "f", "g", "h", "m", "p", "r", "s", "u", "u`mm", "v", "w", "bad"]
+NAMES = ["a", "b", "c", "d", "e", "f", "g", "h", "k", "m", "p", "r", "s", "u", "u`mm", "v", "w", "bad"]
 
 
 def _copy(v, memo):
@@ -194,20 +198,23 @@ def history(s1: int, s2: int, s3: int, s4: int, p1: int, p2: int) -> bool:
         for i, f in enumerate(fixed):
             sel[i] = f
     try:
-        _load(A, {})
-        A._context._min_ctx_count = NSYS
-        A('a::[1 2 3]'); A('d:::{[1 2]}'); A('f::{x}')
-        defs = {"f": "f::{x}"}
-        # the session has a history: a module was opened and closed before (its texts are in the parse cache)
-        A('.module(:mm)'); A('u::1'); A('.module(0)')
+        with untraced():                          # the prelude is literal text: nothing symbolic in it
+            _load(A, {})
+            A._context._min_ctx_count = NSYS
+            A('a::[1 2 3]'); A('d:::{[1 2]}'); A('f::{x}'); A('k::{[f];f::{x*2};f(x)}')
+            defs = {"f": "f::{x}", "k": "k::{[f];f::{x*2};f(x)}"}
+            # the session has a history: a module was opened and closed before (its texts are in the parse cache)
+            A('.module(:mm)'); A('u::1'); A('.module(0)')
         A['p'] = p1
         for i in range(L):
             text, assigns = pick(STMTS, sel[i])
-            if i == L - 1:
-                A['p'] = p2                       # the payload may change between evaluations of the same text
+            if i == L - 1 and p2 != p1:
+                A['p'] = p2                       # the payload may change between evaluations of the same text (or not: an
+                                                  # assignment between two steps would reset the interpreter's caches every time)
             pre = _state(A)
             pre_c = _canon_state(pre)
-            _load(B, pre, defs)
+            with untraced():                      # copies references only (symbolic payloads are moved, never inspected)
+                _load(B, pre, defs)
             rb = _run(B, text)
             ra = _run(A, text)
             if len(text) > 4 and text[1:4] == "::{" and ra[0] == "ok":
